@@ -89,6 +89,7 @@ type Exec struct {
 	replayIn   []*Obs
 	pendingOut []*Obs
 	replayPre  int
+	privCells  []privCell
 }
 
 type Frame struct {
